@@ -138,6 +138,17 @@ def check_pair(name, on, off):
             a, b = body.split("\n"), off.strip("\n").rstrip().split("\n")
             d = next(((x, y) for x, y in zip(a, b) if x != y), (len(a), len(b)))
             return {"first_difference": d}
+        # "... and the bundled procedures": what the option adds are the procedures the program RUNs (C13 judges the whole
+        # closure; here only that nothing the program itself calls is left out)
+        code = re.sub(r'"[^"\n]*"?', '""', "\n".join(ln.split("(*")[0] if '"' not in ln.split("(*")[0] or ln.split("(*")[0].count('"') % 2 == 0 else ln
+                                                         for ln in off.split("\n")))
+        code = "\n".join(ln.split("(*")[0] for ln in code.split("\n"))
+        called = {m.lower() for m in re.findall(r"(?i)\brun\s+([A-Za-z_][A-Za-z0-9_]*)\s*\(", code)}
+        have = {lines[i].split()[1].lower() for i in idx}
+        lib = harness.library()
+        missing = sorted(n for n in called if n in lib and n not in have)
+        if missing:
+            return {"called_but_not_bundled": missing}
         return None
     if name == "default_str_storage":
         # the added DIM name:STRING[n] lines may only declare names the text does not declare elsewhere
@@ -181,7 +192,13 @@ ODD_TEXTS = ['10 F$="A\x0cB":PRINT F$\n20 REM X\x85Y\n30 DATA P\u2028Q,R\x0bS\n4
              '10 B$="X:STRING<<>>":PRINT B$;"A";"B"\n20 REM "\n30 A=INSTR(1,B$,": STRING<<>>"):C$=STRING$(3,"Q")\n',
              # lines that hold nothing but their number (or a colon), referenced and unreferenced, first, in the middle, last
              '10 PRINT 1\n20 :\n30\n40 PRINT 2\n50 GOTO 30\n', '5\n10 A=1\n20\n30 ::\n40 IF A=1 THEN 20\n50\n',
-             '10 :\n20 :\n30 PRINT "X"\n', '10 GOSUB 40\n20\n30 END\n40\n50 RETURN\n']
+             '10 :\n20 :\n30 PRINT "X"\n', '10 GOSUB 40\n20\n30 END\n40\n50 RETURN\n',
+             # the opening of a BASIC09 comment inside literals, next to statements that need runtime procedures
+             '10 PRINT@64,"(*) START"\n20 INPUT "NAME (*=ANY)";N$\n30 LOCATE 1,2:PRINT "(*";A;"*)"\n', '10 HPRINT(1,2),"(* X":SOUND 1,1\n20 PLAY "C":A$="(*"\n',
+             # statements of Color BASIC that the tool refuses today (vacuous now; if a change starts to accept one, each option
+             # still changes only its own aspect of what is emitted for it)
+             '10 PRINT "X"\n20 RUN\n', '10 A=1\n20 RUN 10\n', '10 CLEAR 200,&H7000\n20 A$=MID$("ABC",2)\n', '10 DEFFNA(X)=X*2\n20 PRINT FNA(3)\n',
+             '10 LINE(0,0)-(10,10),PSET\n20 PMODE 4,1:SCREEN 1,1\n', '10 OPEN "O",#1,"F"\n20 PRINT#1,"X"\n30 CLOSE#1\n', '10 EXEC 40960\n20 NEW\n']
 
 
 def program_text(case):
@@ -392,6 +409,11 @@ def cases(tier, seed):
         for fs in ([], ["-l", "-z"], ["-D", "-s80"]):
             yield {"kind": "cli", "seed": i, "flags": fs, "stem": "odd%d" % i, "text": t}
         yield {"kind": "opts", "seed": i, "text": t}
+    # one program that pulls in every runtime helper with a sized string parameter, and string arrays with and without DIM:
+    # the command line's -s reaches all of them exactly as the option does
+    helpers = '10 DIM N$(3)\n20 PLAY "C":HDRAW "U1":A=VAL(A$)+INSTR(1,A$,"X"):PRINT STRING$(2,"*")\n30 INPUT B$,C:N$(1)=B$:M$(2)=B$\n40 READ D:DATA ,1\n'
+    for j, fs in enumerate(([], ["-s80"], ["-s16"], ["-s200", "-l"], ["-s33", "-z"], ["--default-string-storage=64"], ["-s80", "-D"], ["-s1"])):
+        yield {"kind": "cli", "seed": 900 + j, "flags": fs, "stem": "helpers", "text": helpers}
     for i, t in enumerate(['10 DIM N$,A$(3),K\n20 N$="X":A$(1)=N$:K=LEN(N$)\n30 PRINT N$;A$(1);B$\n', '10 DIM Q$\n20 INPUT Q$\n30 IF Q$="" THEN 20\n',
                            '10 DIM S$(2,2),T$,U\n20 T$=STR$(U)+HEX$(U):S$(1,1)=T$\n30 READ T$:DATA X\n']):
         # programs that DIM their own scalar strings (the size option must re-size them, not declare them again)
